@@ -160,7 +160,7 @@ func init() {
 				p[i] = i
 			}
 			for i := n - 1; i > 0; i-- {
-				j := w.chooseFree(i+1, "rng permutation")
+				j := w.rngChoice(i + 1)
 				p[i], p[j] = p[j], p[i]
 			}
 			return p
@@ -180,7 +180,7 @@ func init() {
 				unsupported("random shuffle of %d elements (limit 4)", n)
 			}
 			for i := n - 1; i > 0; i-- {
-				j := w.chooseFree(i+1, "rng shuffle")
+				j := w.rngChoice(i + 1)
 				w.call(fr, 0, args[2], []value{uint64(i), uint64(j)})
 			}
 			return nil
@@ -212,4 +212,26 @@ func init() {
 			return w.hashBytes("sha256", data)
 		}
 	})
+}
+
+// rngChoice is one draw of the modelled RNG. In record mode the draws are kept
+// on a tape, in replay mode they are read back (symx.RNGRecord / RNGReplay):
+// this is how a harness states "same entropy" for two runs.
+func (w *Worker) rngChoice(n int) int {
+	if w.rngMode == 2 {
+		if w.rngPos >= len(w.rngTape) {
+			unsupported("RNG replay ran past the recorded draws")
+		}
+		v := w.rngTape[w.rngPos]
+		w.rngPos++
+		if v >= n {
+			unsupported("RNG replay draw out of range (the two runs diverged in how they use the RNG)")
+		}
+		return v
+	}
+	v := w.chooseFree(n, "rng draw")
+	if w.rngMode == 1 {
+		w.rngTape = append(w.rngTape, v)
+	}
+	return v
 }
